@@ -46,6 +46,10 @@ pub enum Op {
         /// signature or key field of the wrong length), 5 truncated
         #[serde(default)]
         how: u8,
+        /// load the sealed serialization of the token (every later operation on the handle
+        /// then meets a sealed token: append, sealed size and sealed serialization must refuse)
+        #[serde(default)]
+        sealed: bool,
     },
     /// a token minted by another party through the Rust API (content the C builders cannot
     /// write: text holding a NUL, a third-party block, very long text, 3.3 values) loaded with
@@ -817,12 +821,16 @@ impl<'a> Exec<'a> {
                     }
                 }
             }
-            Op::From { t, pk, corrupt, how } => {
+            Op::From { t, pk, corrupt, how, sealed } => {
                 let (ti, pi) = match (pick!(self.slots.t, *t), pick!(self.slots.pk, *pk)) {
                     (Some(a), Some(b)) => (a, b),
                     _ => return,
                 };
-                let mut bytes = match self.slots.t[ti].1.as_ref().and_then(|x| x.to_vec().ok()) {
+                let source = self.slots.t[ti].1.as_ref().and_then(|x| if *sealed { x.seal().ok().and_then(|s| s.to_vec().ok()) } else { x.to_vec().ok() });
+                if *sealed && source.is_some() {
+                    self.stats.bump("c19.sealed_token_loaded");
+                }
+                let mut bytes = match source {
                     Some(b) => b,
                     None => return,
                 };
@@ -984,6 +992,26 @@ impl<'a> Exec<'a> {
                     self.fail(th, MErr::InvalidArgument);
                     self.check_error_channel(th, "biscuit_*_size(NULL)");
                     return;
+                }
+                // a token that is already sealed cannot be sealed again: nothing is announced,
+                // nothing is written, the refusal is in the error channel
+                if sealed {
+                    if let Some(Err(e)) = self.slots.t[ti].1.as_ref().map(|tok| tok.seal().map(|_| ())) {
+                        self.stats.bump("c19.reseal_refused");
+                        match &r {
+                            Res::Buf { ret, data, canaries_ok } => {
+                                if !canaries_ok {
+                                    self.violate("capi-buffer-overrun", format!("sealed serialization of an already sealed token wrote outside the {} bytes the API announced", data.len()));
+                                } else if *ret != 0 || !data.is_empty() {
+                                    self.violate("capi-differs", format!("sealed serialization of an already sealed token: announced {} bytes, returned {ret}; Rust refuses with {e:?}", data.len()));
+                                }
+                            }
+                            other => self.violate("capi-differs", format!("sealed serialization of an already sealed token gives {other:?}; Rust refuses with {e:?}")),
+                        }
+                        self.fail(th, MErr::Lib(e));
+                        self.check_error_channel(th, "sealing an already sealed token");
+                        return;
+                    }
                 }
                 let want = self.slots.t[ti].1.as_ref().and_then(|tok| if sealed { tok.seal().ok().and_then(|s| s.to_vec().ok()) } else { tok.to_vec().ok() });
                 if let (Res::Buf { ret, data, canaries_ok }, Some(want)) = (r, want) {
@@ -1501,7 +1529,7 @@ impl Engine for CapiEngine {
                     Op::BlockAdd { l: rng.below(3), kind: k, text: gen_text(&mut rng, k) }
                 }
                 12 => Op::Append { t: rng.below(4), l: rng.below(3), kp: rng.below(4) },
-                13 => Op::From { t: rng.below(4), pk: rng.below(4), corrupt: rng.chance(1, 3), how: rng.below(6) as u8 },
+                13 => Op::From { t: rng.below(4), pk: rng.below(4), corrupt: rng.chance(1, 3), how: rng.below(6) as u8, sealed: rng.chance(1, 3) },
                 14 => Op::Serialize { t: rng.below(4) },
                 15 => Op::SerializeSealed { t: rng.below(4) },
                 16 => Op::BlockCount { t: rng.below(4) },
@@ -1525,7 +1553,15 @@ impl Engine for CapiEngine {
             };
             let foreign = matches!(op, Op::FromForeign { .. });
             let appended = matches!(op, Op::Append { .. });
+            let loaded_sealed = matches!(op, Op::From { sealed: true, corrupt: false, .. });
             push(&mut rng, op, &mut calls);
+            if loaded_sealed {
+                // what a sealed token must refuse, and what it must still do
+                push(&mut rng, Op::SerializeSealed { t: 1000 }, &mut calls);
+                push(&mut rng, Op::Serialize { t: 1000 }, &mut calls);
+                let (l, kp) = (rng.below(3), rng.below(4));
+                push(&mut rng, Op::Append { t: 1000, l, kp }, &mut calls);
+            }
             if appended && rng.chance(1, 2) {
                 // serialize what was just made, both ways
                 push(&mut rng, Op::SerializeSealed { t: 1000 }, &mut calls);
